@@ -669,6 +669,19 @@ func streamAndInPlace() []*Scenario {
 		sc.Note = fmt.Sprintf("%s on %q with %d matcher(s): stream / in-place callback", hc.api, hc.doc, len(hc.ms))
 		scs = append(scs, sc)
 	}
+	// K9 (known finding, DESIGN.md 14.4): a string placeholder that reads as YAML structure
+	// ("- item", "? x", "-") is written unquoted by the YAML encoder go-snaps uses, so the value at
+	// the path becomes a sequence / mapping instead of that string. The expectation is the string.
+	for i, ph := range []string{"- item", "? x", "-"} {
+		sc := &Scenario{ID: fmt.Sprintf("k9_%d", i), Configs: stdConfigs(), Program: []string{"TestA"}, Tags: []string{"also:C15", "sig:K9"}}
+		q, _ := json.Marshal(ph)
+		t := "id: " + string(q) + "\nname: x\n"
+		sc.Procs = append(sc.Procs, &Proc{Spec: procSpec("default"), Steps: []*Step{{Op: "begin", Name: "TestA"},
+			{Op: "match", Name: "TestA", API: "yaml", Cfg: "c", Val: bytesVal("id: 5\nname: x\n"),
+				Matchers: []*Matcher{{M: "any", Paths: []string{"$.id"}, HasPH: true, Placeholder: json.RawMessage(q)}}, X: &Expect{Text: &t}}, {Op: "end", Name: "TestA"}}})
+		sc.Note = fmt.Sprintf("K9 reproduction: MatchYAML with Any($.id).Placeholder(%q): the stored value at $.id must be that string", ph)
+		scs = append(scs, sc)
+	}
 	return scs
 }
 
@@ -697,6 +710,9 @@ func (c *CheckCtx) docsEntryPoints(cases []*docCase, prop string) error {
 		c.nontrivial(sc.Note)
 	}
 	for _, sc := range streamAndInPlace() {
+		if hasTag(sc, "sig:K9") && prop != "C15" {
+			continue // K9 is a finding about what a matcher writes (C15)
+		}
 		scs = append(scs, sc)
 		c.nontrivial(sc.Note)
 	}
@@ -936,6 +952,9 @@ func checkC16(c *CheckCtx) error {
 		scs = append(scs, h)
 	}
 	for _, sc := range streamAndInPlace() {
+		if hasTag(sc, "sig:K9") {
+			continue
+		}
 		scs = append(scs, sc) // what a path covers in a stream decides what is masked (tagged also:C16)
 		c.nontrivial(sc.Note)
 	}
